@@ -177,7 +177,9 @@ def run(ctx):
                     'grammar': [['D1', '0.6'], ['A2D1', '0.4']], 'omen_prob': [], 'prince': [], 'mode': 'near', 'encoding': 'utf-8', 'omen': om}
         if i == 2:
             # base structures listed in another order than that of their probabilities (a grammar.txt merged or edited by hand)
-            spec = {'terminals': {'D1': [['1', '0.5'], ['2', '0.3'], ['3', '0.2']], 'A2': [['ab', '0.6'], ['cd', '0.4']], 'C2': [['LL', '0.6'], ['UL', '0.4']],
+            spec = {'terminals': {'D1': [['1', '0.5'], ['2', '0.3'], ['3', '0.2']], 'A2': [['ab', '0.6'], ['cd', '0.4']],
+                                  # (loaded with --all_lower below: the all-lower mask shares its probability group with another mask)
+                                  'C2': [['UL', '0.4'], ['LL', '0.4'], ['UU', '0.2']],
                                   'O1': [['!', '0.75'], ['#', '0.25']]},
                     'grammar': [['D1', '0.125'], ['A2D1', '0.5'], ['O1D1', '0.0625'], ['A2', '0.3125']], 'omen_prob': [], 'prince': [], 'mode': 'dyadic',
                     'encoding': 'utf-8', 'omen': om}
